@@ -183,7 +183,7 @@ class Work:
             [
                 "sq", "dbl", "mix", "twice", "shared", "cond", "fun", "pow", "div", "inner", "dotvw", "idx", "idx2",
                 "vecscale", "vecsum", "list", "var", "copy", "copy", "copytop", "copydag", "eq", "eq", "chain", "matvec",
-                "outer", "minmax",
+                "outer", "minmax", "listsplit",
             ]
         )
         try:
@@ -238,6 +238,14 @@ class Work:
             return self.keep(V, ufl.dot(M, v) if rng.random() < 0.5 else ufl.as_tensor(M[i, j] * v[j], (i,)), (n,))
         if op == "outer":
             return self.keep(A, ufl.outer(v, w) + M if rng.random() < 0.5 else ufl.dot(M, M), (n, n))
+        if op == "listsplit":
+            # all components of a vector, taken alternately from one object and from an equal-but-distinct copy
+            # (ListTensor's constructor folds [v[0], v[1], ...] back into v only when the v's are one object)
+            vv = rebuild(v, 1, True, None)
+            if vv is v:
+                vv = ufl.as_vector([v[k] for k in range(n)])  # terminal that cannot be cloned: still a list of components
+            c = ufl.as_vector([(v if k % 2 == 0 else vv)[k] for k in range(n)])
+            return self.keep(V, c, (n,)) and self.keep(S, ufl.inner(c, w), ())
         if op == "minmax":
             # (abs of an Abs object would turn that shared object into its own operand, see is_cyclic)
             return self.keep(S, ufl.max_value(re(a), re(a * b)) + (a if isinstance(a, ufl.classes.Abs) else abs(a)), ())
